@@ -273,6 +273,8 @@ class ProtocolContext:
         elif not isinstance(self._state, WantRply):  # IsInIdle, IsInactive
             self._cmd = self._qos = None
             self._cmd_tx_count = 0  # was: = None
+            if self._fut is not None and self._fut.done():
+                self._fut = None  # its caller has been answered: nothing is in flight
 
         assert isinstance(self.is_sending, bool)  # TODO: remove
 
